@@ -25,7 +25,7 @@ DTYPES = ("float32", "float64", "uint8")
 
 def REQUIRED(tier):
     return ["running_filter", "running:w>n", "running:even_w", "downsample_1d", "downsample_1d:factor==n", "downsample_2d", "downsample_2d_flat", "kernel_2d_flat",
-            "kernel_parallel", "overflow_probe", "detrend", "deredden", "ts_downsample", "block_downsample", "canary_audits", "input_unchanged_checks", "deredden_exact_after_fast", "detrend_long_series", "regime:2d_second_axis_over_4096", "running_filter_long_series"]
+            "kernel_parallel", "overflow_probe", "detrend", "deredden", "ts_downsample", "block_downsample", "canary_audits", "input_unchanged_checks", "deredden_exact_after_fast", "detrend_long_series", "regime:2d_second_axis_over_4096", "running_filter_long_series", "median_after_larger_block_of_another_type"]
 
 
 def EXHAUSTIVE(tier):
@@ -297,6 +297,26 @@ def _ds2d(case, ctx, d2s=None):
                     ctx.violation("oob-store:downsample_2d kernels", str(fr.audit()), one)
                 if f1 * f2 >= 2:
                     ctx.nontrivial_case(one)
+    # a median decimation of one sample type right after a larger one of another type (work arrays kept between calls carry no type over)
+    for big_dt, small_dt in (("uint8", "float32"), ("float32", "float64"), ("uint8", "float64")):
+        ab = _data(rng, (d1 + 2, 16), big_dt)
+        asm = (rng.normal(size=(d1, 12)) * 100.0 + 0.3).astype(small_dt)
+        one = {"kind": "ds2d", "d1": d1, "seed": case["seed"], "sequence": [big_dt, small_dt]}
+        for nm in ("downsample_2d", "downsample_2d_flat"):
+            ctx.evaluated(); ctx.count("median_after_larger_block_of_another_type")
+            try:
+                if nm == "downsample_2d":
+                    stats.downsample_2d(ab, (1, 2), "median")
+                    got = np.asarray(stats.downsample_2d(asm, (1, 2), "median"))
+                else:
+                    stats.downsample_2d_flat(ab.ravel(), 1, 2, d1 + 2, 16, method="median")
+                    got = np.asarray(stats.downsample_2d_flat(asm.ravel(), 1, 2, d1, 12, method="median")).reshape(d1, 6)
+            except Exception as exc:  # noqa: BLE001
+                ctx.violation(f"{nm}-raised:median:{type(exc).__name__}@{exc_site(exc)}", fmt_exc(exc), one)
+                continue
+            want = np.median(asm.astype(np.float64).reshape(d1, 6, 2), axis=2)
+            if got.shape != want.shape or np.max(np.abs(got.astype(np.float64) - want)) > (1e-12 if small_dt == "float64" else 2e-5) * 500:
+                ctx.violation(f"{nm}:median:after-larger-block-of-another-type", f"({d1},12) {small_dt} block decimated right after a ({d1 + 2},16) {big_dt} block: max error {np.max(np.abs(got.astype(np.float64) - want)) if got.shape == want.shape else 'shape'} (result dtype {got.dtype})", one)
     ctx.sample({"function": "2-D decimators", "d1": d1, "d2": "1..12" if not d2s else d2s, "factors": "all pairs" if not d2s else "6 random"})
 
 
